@@ -566,6 +566,100 @@ class Body:
                     q.append(y)
         return seen
 
+    # variant index of the usual two-variant enums (discriminant values in switch terminators)
+    _VARIDX = {'Ok': 0, 'Err': 1, 'None': 0, 'Some': 1, 'Continue': 0, 'Break': 1, 'Ready': 0, 'Pending': 1}
+
+    def reachable_tracking(self, start_nodes, avoid=None, limit=40000):
+        """like reachable_from, but path-sensitive in one respect: when a path assigns a local a known enum variant
+        (`x = Err(..)`, then copies of it, `Try::branch(x)`, `discriminant(x)`), a later switch on that discriminant follows
+        only the matching edge. This is what keeps the returns of a spliced helper apart: its `Err` return does not reach the
+        caller's Ok continuation. Falls back to plain reachability when the state space gets large."""
+        succ, _, edges = self.cfg()
+        avoid = avoid or set()
+        nblocks = len(self.blocks)
+        seen_nodes = set()
+        seen_states = set()
+        q = []
+        for s in start_nodes:
+            if s not in avoid:
+                q.append((s, ()))
+        budget = limit
+        while q:
+            node, facts = q.pop()
+            if (node, facts) in seen_states:
+                continue
+            seen_states.add((node, facts))
+            seen_nodes.add(node)
+            budget -= 1
+            if budget <= 0:
+                return self.reachable_from(start_nodes, avoid)
+            if node >= nblocks:
+                # an edge node: one successor
+                for y in succ[node]:
+                    if y not in avoid:
+                        q.append((y, facts))
+                continue
+            blk = self.blocks[node]
+            f = dict(facts)
+            for st in blk['s']:
+                d = st['d']
+                r = st['r']
+                if len(d) != 1:
+                    if d[0] in f and not any(isinstance(p, str) and p.startswith('@') for p in d[1:]):
+                        pass
+                    continue
+                l = d[0]
+                f.pop(l, None)
+                if r['k'] == 'agg' and r.get('var') in self._VARIDX:
+                    f[l] = self._VARIDX[r['var']]
+                elif r['k'] == 'use' and 'p' in r['o'] and len(r['o']['p']) == 1 and r['o']['p'][0] in f:
+                    f[l] = f[r['o']['p'][0]]
+                elif r['k'] == 'disc' and len(r['p']) == 1 and r['p'][0] in f:
+                    f[l] = ('d', f[r['p'][0]])
+            t = blk['t']
+            k = t['k']
+            if k == 'call':
+                d = t.get('d')
+                fn = t.get('f', {})
+                name = fn.get('r') or fn.get('fn') or ''
+                if d and len(d) == 1:
+                    f.pop(d[0], None)
+                    a0 = t.get('args', [None])[0] if t.get('args') else None
+                    if a0 is not None and 'p' in a0 and len(a0['p']) == 1 and a0['p'][0] in f and isinstance(f[a0['p'][0]], int):
+                        if name.endswith('Try>::branch') or fn.get('fn', '').endswith('Try::branch'):
+                            f[d[0]] = f[a0['p'][0]]        # Ok -> Continue(0), Err -> Break(1); Some -> Continue? (Option: None=0 is Break)
+                            src_var = f[a0['p'][0]]
+                            # Option<T>::branch: Some(1) -> Continue(0), None(0) -> Break(1): decide by the operand's type
+                            ty = self.local_ty(a0['p'][0])
+                            if ty.startswith('std::option::Option'):
+                                f[d[0]] = 0 if src_var == 1 else 1
+                if t.get('t') is not None and t['t'] not in avoid:
+                    q.append((t['t'], tuple(sorted(f.items(), key=lambda kv: kv[0]))))
+                continue
+            nf = tuple(sorted(f.items(), key=lambda kv: kv[0]))
+            if k == 'switch':
+                dv = t['d']
+                known = None
+                if 'p' in dv and len(dv['p']) == 1 and dv['p'][0] in f and isinstance(f[dv['p'][0]], tuple):
+                    known = f[dv['p'][0]][1]
+                for y in succ[node]:
+                    if y in avoid:
+                        continue
+                    e = edges.get(y)
+                    if known is not None and e is not None:
+                        vals = [v for v, _ in t['v']]
+                        if e[1] == 'otherwise':
+                            if str(known) in vals:
+                                continue
+                        elif int(e[1]) != known:
+                            continue
+                    q.append((y, nf))
+                continue
+            for y in succ[node]:
+                if y not in avoid:
+                    q.append((y, nf))
+        return seen_nodes
+
     def dominators(self):
         """idom-free dominator sets via iterative dataflow on the edge-split graph (entry = 0)."""
         if self._dom is None:
@@ -1217,6 +1311,10 @@ def dominating_conds(body, node, expand=True, _depth=0):
     (`let ok = matches!(x, V)`; `if ok {..}`) also contributes the conditions that dominate the one
     assignment giving it the tested value."""
     out = []
+    if _depth == 0 and getattr(body, 'regions', None):
+        for arm, conds in region_success_conds(body):
+            if body.dominates(arm, node):
+                out += conds
     for n, edge in body.dominating_edges(node):
         c = edge_cond(body, edge)
         out.append(c)
@@ -1239,6 +1337,71 @@ def dominating_conds(body, node, expand=True, _depth=0):
                 same = [bb for v, bb in consts if v == c.truth]
                 if len(same) == 1:
                     out += dominating_conds(body, same[0], expand, _depth + 1)
+    return out
+
+
+def region_success_conds(body):
+    """for an inlined body: per spliced helper whose result is tested by `?` / a match on Ok-Some, the branch conditions
+    inside the helper that hold on every path to its success continuation (all returns of the helper share one continuation
+    block, so plain dominance cannot see them). returns [(ok_arm_node, [Cond])], cached on the body."""
+    if getattr(body, '_rsc', None) is not None:
+        return body._rsc
+    out = []
+    regions = getattr(body, 'regions', None) or []
+    succ, _, edges = body.cfg()
+    for (first, nblk, cont, dest) in regions:
+        if cont is None or not dest or len(dest) != 1:
+            continue
+        # the switch on the helper's result: follow straight-line code from the continuation
+        cur = cont
+        arm = None
+        tracked = {dest[0]}
+        for _ in range(12):
+            blk = body.blocks[cur]
+            for st in blk['s']:
+                r = st['r']
+                if len(st['d']) == 1 and ((r['k'] == 'use' and 'p' in r['o'] and r['o']['p'][0] in tracked and len(r['o']['p']) == 1) or
+                                          (r['k'] == 'disc' and r['p'][0] in tracked and len(r['p']) == 1)):
+                    tracked.add(st['d'][0])
+            t = blk['t']
+            if t['k'] == 'switch':
+                dv = t['d']
+                if 'p' in dv and dv['p'][0] in tracked:
+                    # success arm: Continue(0) after Try::branch; Ok(0) of a Result; Some(1) of an Option
+                    ty = body.local_ty(dest[0])
+                    want = '1' if (ty.startswith('std::option::Option') and not getattr(body, '_via_branch', False)) else '0'
+                    for n_, e_ in body.edges_of(cur):
+                        if e_[1] == want:
+                            arm = n_
+                break
+            if t['k'] == 'call':
+                fn = t.get('f', {})
+                a0 = t.get('args', [None])[0] if t.get('args') else None
+                if a0 is not None and 'p' in a0 and a0['p'][0] in tracked and t.get('d') and len(t['d']) == 1 and \
+                        ((fn.get('r') or '').endswith('Try>::branch') or fn.get('fn', '').endswith('Try::branch')):
+                    tracked.add(t['d'][0])
+                    body._via_branch = True
+                nxt = t.get('t')
+            elif t['k'] in ('goto', 'drop', 'assert'):
+                nxt = t['t']
+            else:
+                break
+            if nxt is None:
+                break
+            cur = nxt
+        body._via_branch = False
+        if arm is None:
+            continue
+        region_blocks = set(range(first, first + nblk))
+        conds = []
+        for n_, e_ in edges.items():
+            if e_[0] not in region_blocks:
+                continue
+            reach = body.reachable_tracking([first], {n_})
+            if arm not in reach:
+                conds.append(edge_cond(body, e_))
+        out.append((arm, conds))
+    body._rsc = out
     return out
 
 
